@@ -8,6 +8,7 @@
 //!         "observed":..,"required":..} and a final {"kind":"summary","cases":N,"failing":K}.
 use std::panic;
 
+mod c05;
 mod c15;
 mod c17;
 mod c18;
@@ -54,6 +55,7 @@ fn main() {
     let mut ctx = Ctx { only, cases: 0, failing: 0 };
     panic::set_hook(Box::new(|_| {}));
     match args[1].as_str() {
+        "C05" => c05::run(&mut ctx),
         "C15" => c15::run(&mut ctx),
         "C17" => c17::run(&mut ctx),
         "C18" => c18::run(&mut ctx),
